@@ -11,6 +11,9 @@ CHECKS = {
  "C11": ("exploration", "runtime monitor: probe-completion oracle at provably final states (stop-the-world goroutine snapshots), rendezvous hooks forcing the unregister/teardown-vs-read-loop interleavings",
          "Every (k,n) handler-returns-early and every m-unread caller-cancel abandonment, per stream kind and load level, followed by a no-deadline probe and a manual-deadline probe; the hang verdict is taken only in a state where every goroutine is durably blocked, so it is sound; interleavings of read loop vs. handler exit are forced by rendezvous at the unregistration/teardown hooks plus jitter, not enumerated.",
          "Trusts the final-state detector (Go runtime goroutine states) and the harness link; HOL blocking by a live, slow consumer is by design and never produced by the generators.", "DESIGN.md 2/C11"),
+ "C02": ("exploration", "runtime monitor: per-stream sequence/end-of-stream oracle over API-boundary records of both sides, rendezvous hooks forcing the done-check/blocking-step windows of RecvMsg, SendMsg and CloseSend",
+         "Element-wise comparison of what each side received with what the other sent, plus exact terminal results (io.EOF for the handler after half-close, io.EOF for the caller iff the handler returned nil), over 9 admissible program-pair families, counts 0..200, 1..32 streams per connection and 3 topologies; the race window the property names is produced deterministically in a third of the cases by parking the operation at a hook until the stream has been torn down.",
+         "Trusts the harness link and grpc's codec; program pairs are restricted to ones that cannot deadlock by construction on a connection without per-stream flow control (see DESIGN.md section 7).", "DESIGN.md 2/C02"),
 }
 NOT_YET = "check not built yet in this round (runtime-monitoring design in DESIGN.md section 2); will be claimed once its monitor exists"
 
